@@ -205,6 +205,41 @@ def case_panel(rng, tier):
     p.out_num_cores = other
     o3 = np.array([np.asarray(o).ravel() for o in p.uvw(cvec, xs=xs, ys=ys)])
     c.expect('uvw: independent of the thread count', np.array_equal(o3, got), 'threads %d vs %d' % (nthreads, other))
+    # the same points handed over as 2-D arrays in other memory layouts: every output keeps the shape of the request and
+    # element [i, j] belongs to the point (xs[i, j], ys[i, j])
+    gx = int(rng.integers(2, 7)); gy = int(rng.integers(2, 7))
+    if gx == gy:
+        gx += 1
+    X, Y = np.meshgrid(np.sort(rng.uniform(0, d['a'], gx)), np.sort(rng.uniform(0, d['b'], gy)))
+    flat = [np.asarray(o).ravel() for o in p.uvw(cvec, xs=X.ravel().copy(), ys=Y.ravel().copy())]
+    layout = str(rng.choice(['c_order', 'fortran', 'transposed_view', 'broadcast_view']))
+    c.tag('layout:' + layout)
+    if layout == 'c_order':
+        X2, Y2, expect = X.copy(), Y.copy(), [f.reshape(X.shape) for f in flat]
+    elif layout == 'fortran':
+        X2, Y2, expect = np.asfortranarray(X), np.asfortranarray(Y), [f.reshape(X.shape) for f in flat]
+    elif layout == 'transposed_view':
+        X2, Y2, expect = X.copy().T, Y.copy().T, [f.reshape(X.shape).T for f in flat]
+    else:
+        X2, Y2 = np.meshgrid(X[0, :].copy(), Y[:, 0].copy(), copy=False)
+        expect = [f.reshape(X.shape) for f in flat]
+    try:
+        out2 = p.uvw(cvec, xs=X2, ys=Y2)
+    except Exception as e:
+        c.info['layout_rejected'] = '%s: %s' % (type(e).__name__, str(e)[:80])
+        out2 = None
+    if out2 is not None:
+        ok = all(np.asarray(o).shape == X2.shape and np.array_equal(np.asarray(o), e) for o, e in zip(out2[:3], expect[:3]))
+        c.expect('uvw: 2-D point arrays in any memory layout give element-wise the same field', ok, layout)
+        if res is not None:
+            try:
+                st2 = p.strain(cvec, xs=X2, ys=Y2, NLterms=False)
+                st1 = p.strain(cvec, xs=X.ravel().copy(), ys=Y.ravel().copy(), NLterms=False)
+                ok = all(np.array_equal(np.asarray(st2[kk]), (np.asarray(st1[kk]).reshape(X.shape).T if layout == 'transposed_view' else np.asarray(st1[kk]).reshape(X.shape)))
+                         for kk in ('exx', 'eyy', 'gxy', 'kxx', 'kyy', 'kxy'))
+                c.expect('strain: 2-D point arrays in any memory layout give element-wise the same field', ok, layout)
+            except Exception as e:
+                c.info['layout_rejected_strain'] = '%s: %s' % (type(e).__name__, str(e)[:80])
     if res is not None:
         for NL in (False, True):
             st = p.strain(cvec, xs=xs, ys=ys, NLterms=NL)
